@@ -259,6 +259,7 @@ def add_blobs(ctx, prog):
         ctx.ob("C18-D2/SQL", ok, fa.site(c), "inserted status follows the `finished` flag", detail="" if ok else txt[:120], func=q)
     for c in upd:
         R.gate(ctx, "C18-D2/GATE", fa, c, "finished", "rows are upgraded only when finished=True", key=f"C18-D2/GATE|{q}|finished")
+        R.exact_gate(ctx, "C18-D2/GATE", fa, c, "finished", "…and always then", key=f"C18-D2/GATE|{q}|finished-exact")
         g = c.args[1] if len(c.args) > 1 else None
         ok = isinstance(g, ast.GeneratorExp) and dotted(g.generators[0].iter) == "blob_hashes_and_lengths" and not g.generators[0].ifs
         ctx.ob("C18-D2/DEP", ok, fa.site(c), "every row handed in is upgraded", func=q)
@@ -304,6 +305,8 @@ def deletion(ctx, prog):
         isinstance(c, ast.Call) and dotted(c.func) == "self.delete_blob" and c.args and dotted(c.args[0]) == dotted(loops[0].target)
         for c in ast.walk(loops[0]))
     ctx.ob("C18-D4/DEP", ok, fa.site(), "every listed blob is deleted locally", func=q)
+    dflt = {a.arg: d for a, d in zip(reversed(fa.node.args.args), reversed(fa.node.args.defaults))}
+    ctx.ob("C18-D4/GATE", is_const(dflt.get("delete_from_db"), True), fa.site(), "delete_blobs removes the rows by default (delete_from_db=True)", func=q, key=f"C18-D4/GATE|{q}|default")
     for c in fa.calls(name="delete_blobs_from_db"):
         R.exact_gate(ctx, "C18-D4/GATE", fa, c, "delete_from_db", "rows are removed exactly when delete_from_db is set",
                      key=f"C18-D4/GATE|{q}|rows")
@@ -318,3 +321,65 @@ def deletion(ctx, prog):
     sql = [c for c in dd.calls(name="executemany") if c.args and isinstance(c.args[0], ast.Constant)]
     ok = len(sql) == 1 and " ".join(sql[0].args[0].value.lower().split()).rstrip(";") == "delete from blob where blob_hash=?"
     ctx.ob("C18-D4/SQL", ok, dd.site(), "row deletion is by blob_hash", func=dd.fi.qualname)
+
+
+_base_check_c18 = check
+
+
+def check(ctx):            # noqa: F811  (extends the rules above)
+    _base_check_c18(ctx)
+    exact(ctx, ctx.prog)
+
+
+def exact(ctx, prog):
+    """the completeness halves: every verified file IS recorded, every completed on-disk blob IS reported, every deletion path removes
+    file, cache entry and completed-set entry — each under exactly the function's own tests"""
+    import ast
+    from ..astutil import norm_text, dotted, is_const
+    from .. import rules as R
+    BM = "lbry.blob.blob_manager.BlobManager"
+    iv = ctx.fa(f"{BM}.is_blob_verified")
+    h, ln = iv.fi.params()[1:3]
+    vv = [f"is_valid_blobhash({h})", f"os.path.isfile(os.path.join(self.blob_dir, {h}))", f"{h} in self.blobs"]
+    R.refusal_table(ctx, "C18-D5/EXACT", iv, [("ValueError", f"not is_valid_blobhash({h})")], "is_blob_verified")
+    R.effect_table(ctx, "C18-D5/EXACT", iv, vv, [
+        ("return False", f"is_valid_blobhash({h}) and not os.path.isfile(os.path.join(self.blob_dir, {h}))", "no file: not verified"),
+        (f"return self.blobs[{h}].get_is_verified()", f"os.path.isfile(os.path.join(self.blob_dir, {h})) and {h} in self.blobs", "a cached blob object answers for itself"),
+        (f"return self._get_blob({h}, {ln}).get_is_verified()", f"os.path.isfile(os.path.join(self.blob_dir, {h})) and not {h} in self.blobs", "otherwise a fresh blob object checks the file"),
+    ], "is_blob_verified: ")
+    bc = ctx.fa(f"{BM}.blob_completed")
+    b = bc.fi.params()[1]
+    bv = [f"{b}.blob_hash is None", f"{b}.length", f"isinstance({b}, BlobFile)", f"{b}.blob_hash not in self.completed_blob_hashes"]
+    R.refusal_table(ctx, "C18-D5/EXACT", bc, [("Blob hash is None", f"{b}.blob_hash is None"), ("Blob has a length of 0", f"not {b}.blob_hash is None and not {b}.length")], "blob_completed")
+    R.effect_table(ctx, "C18-D5/EXACT", bc, bv, [
+        (f"self.completed_blob_hashes.add({b}.blob_hash)", f"isinstance({b}, BlobFile) and {b}.blob_hash not in self.completed_blob_hashes", "a completed on-disk blob enters the completed set"),
+        (f"return self.loop.create_task(self.storage.add_blobs(({b}.blob_hash, {b}.length, {b}.added_on, {b}.is_mine), finished=True))", f"isinstance({b}, BlobFile)",
+         "…and its row is recorded finished"),
+        (f"return self.loop.create_task(self.storage.add_blobs(({b}.blob_hash, {b}.length, {b}.added_on, {b}.is_mine), finished=False))", f"not isinstance({b}, BlobFile)",
+         "an in-memory blob is recorded as not finished"),
+    ], "blob_completed: ")
+    db = ctx.fa(f"{BM}.delete_blob")
+    h = db.fi.params()[1]
+    dv = [f"is_valid_blobhash({h})", f"{h} not in self.blobs", "self.blob_dir", f"os.path.isfile(os.path.join(self.blob_dir, {h}))", f"{h} in self.completed_blob_hashes"]
+    R.refusal_table(ctx, "C18-D5/EXACT", db, [("invalid blob hash to delete", f"not is_valid_blobhash({h})")], "delete_blob")
+    R.effect_table(ctx, "C18-D5/EXACT", db, dv, [
+        (f"os.remove(os.path.join(self.blob_dir, {h}))", f"{h} not in self.blobs and self.blob_dir and os.path.isfile(os.path.join(self.blob_dir, {h}))", "an uncached blob's file is removed when it exists"),
+        (f"self.blobs.pop({h}).delete()", f"not {h} not in self.blobs", "a cached blob is dropped from the cache and deletes its own file"),
+        (f"self.completed_blob_hashes.remove({h})", f"{h} in self.completed_blob_hashes", "…and leaves the completed set"),
+    ], "delete_blob: ")
+    ec = ctx.fa(f"{BM}.ensure_completed_blobs_status")
+    R.effect_table(ctx, "C18-D5/EXACT", ec, ["self.is_blob_verified(blob_hash)", "len(to_add) > 500"], [
+        ("blob = self.get_blob(blob_hash)", "self.is_blob_verified(blob_hash)", "every verified file gets its blob object"),
+        ("to_add.append((blob.blob_hash, blob.length, blob.added_on, blob.is_mine))", "", "…whose row joins the batch"),
+        ("return await self.storage.add_blobs(*to_add, finished=True)", "", "the remaining batch is recorded finished"),
+    ], "re-examination: ")
+    for x in ec.stmts(ast.Continue):
+        R.exact_gate(ctx, "C18-D5/EXACT", ec, x, "not self.is_blob_verified(blob_hash)", "re-examination: a file is skipped exactly when it does not verify", key="C18-D5/EXACT|skip-exact")
+    st = ctx.fa(f"{BM}.setup.<locals>.get_files_in_blob_dir")
+    R.effect_table(ctx, "C18-D5/EXACT", st, ["self.blob_dir"], [
+        ("return set()", "not self.blob_dir", "without a blob directory the scan is empty"),
+        ("return {item.name for item in os.scandir(self.blob_dir) if is_valid_blobhash(item.name)}", "self.blob_dir", "otherwise it lists every entry whose name is a valid blob hash"),
+    ], "scan: ")
+    su = ctx.fa(f"{BM}.setup")
+    ok = any(norm_text(x) == "in_blobfiles_dir = await self.loop.run_in_executor(None, get_files_in_blob_dir)" for x in su.stmts(ast.Assign))
+    ctx.ob("C18-D5/EXACT", ok, su.site(), "scan: the scan result is what setup reconciles", func=su.fi.qualname)
